@@ -164,6 +164,15 @@ func c08Singles(st *c08State, thorough bool) []c08Tamper {
 		for i := range st.versions[k] {
 			out = append(out, c08Tamper{Key: k, Kind: "rollback", Arg: i})
 		}
+		// tampering DURING a load: the object changes right after its first read
+		// ("dyn-after": pristine, then flipped) or is restored right after it
+		// ("dyn-until": flipped, then pristine) - a verify-then-re-read slip would
+		// authenticate one version and use the other
+		if len(v) > 0 {
+			for _, pos := range []int{0, len(v) / 2, len(v) - 1} {
+				out = append(out, c08Tamper{Key: k, Kind: "dyn-after", Arg: pos, Mask: 0x01}, c08Tamper{Key: k, Kind: "dyn-until", Arg: pos, Mask: 0x01})
+			}
+		}
 		if strings.HasPrefix(k, "staging/") {
 			for _, c := range []string{"garbage-tiles", "smuggle-checkpoint", "smuggle-foreign-key", "extra-leaf"} {
 				out = append(out, c08Tamper{Key: k, Kind: "craft", From: c})
@@ -272,8 +281,38 @@ func c08Apply(st *c08State, w *world, t c08Tamper) bool {
 		w.store.Set(t.Key, st.versions[t.Key][t.Arg])
 	case "craft":
 		w.store.Set(t.Key, c08Craft(st, t.Key, t.From))
+	case "dyn-after":
+		if t.Arg >= len(v) {
+			return false
+		}
+		// applied by the backend wrapper after the first read
+	case "dyn-until":
+		if t.Arg >= len(v) {
+			return false
+		}
+		nv := bytes.Clone(v)
+		nv[t.Arg] ^= byte(t.Mask)
+		w.store.Set(t.Key, nv)
 	}
 	return true
+}
+
+// c08DynBackend changes one object right after its first Fetch.
+type c08DynBackend struct {
+	Backend
+	key   string
+	store *verifmc.Store
+	next  []byte
+	done  bool
+}
+
+func (b *c08DynBackend) Fetch(ctx context.Context, key string) ([]byte, error) {
+	v, err := b.Backend.Fetch(ctx, key)
+	if key == b.key && !b.done {
+		b.done = true
+		b.store.Set(b.key, b.next)
+	}
+	return v, err
 }
 
 // c08Run applies the tamperings and drives the log; it returns the outcome
@@ -295,6 +334,19 @@ func c08Run(st *c08State, ts []c08Tamper) (outcome string, viol string) {
 	submitted := 0
 	for epoch, specs := range entries {
 		in := w.newInstance("T", epoch+1, rows, true)
+		if epoch == 0 {
+			for _, t := range ts {
+				pristine, _ := st.base.store.Get(t.Key)
+				switch t.Kind {
+				case "dyn-after":
+					nv := bytes.Clone(pristine)
+					nv[t.Arg] ^= byte(t.Mask)
+					in.cfg.Backend = &c08DynBackend{Backend: in.cfg.Backend, key: t.Key, store: w.store, next: nv}
+				case "dyn-until":
+					in.cfg.Backend = &c08DynBackend{Backend: in.cfg.Backend, key: t.Key, store: w.store, next: pristine}
+				}
+			}
+		}
 		l, err := func() (l *Log, err error) {
 			defer func() {
 				if r := recover(); r != nil {
